@@ -87,6 +87,10 @@ def replay(path):
         return 1
     name = rec["check"]
     first = rec["first"]
+    if name.endswith(".setup"):
+        print(f"while building its inputs the check called the library at {first['input']}\n  expected: {first['expected']}\n  actual:   {first['actual']}\n{first.get('note', '')}")
+        print("re-run the check itself to see whether the call still raises")
+        return 1
     import pyvc.policy  # noqa: F401
 
     fn = core.REGISTRY["D.runtime" if name.startswith("D:") else name]
